@@ -62,9 +62,30 @@ def gen_command(rng, tokens, i=0):
         if text:
             spec['files'].append({'name': name, 'kind': 'text', 'lines': lines(rng.choice([1, 2, 5]))})
         else:
-            spec['files'].append({'name': name, 'kind': 'binary',
-                                  'hex': bytes(rng.randrange(256) for _ in range(rng.choice([1, 8, 64]))).hex()})
+            spec['files'].append({'name': name, 'kind': 'binary', 'hex': binary_content(rng).hex()})
     return spec
+
+
+def binary_content(rng):
+    """Bytes for a file whose name does not say "text": mostly random, sometimes nearly-text (what an encoding
+    detector is most likely to misjudge)."""
+    r = rng.random()
+    if r < 0.7:
+        return bytes(rng.randrange(256) for _ in range(rng.choice([1, 8, 64])))
+    sample = rng.choice(['日本語のテキスト', 'Ünïcödé çà et là', 'Привет, мир', 'naïve café', 'données 42 €'])
+    u = (sample * rng.choice([1, 1, 3])).encode('utf-8')
+    if r < 0.8:
+        # UTF-8 text cut part-way through its last multi-byte character
+        while u and u[-1] < 0x80:
+            u = u[:-1]
+        return u[:-1]
+    if r < 0.87:
+        # UTF-8 text with one impossible byte in the middle
+        k = len(u) // 2
+        return u[:k] + b'\xff' + u[k:]
+    if r < 0.94:
+        return sample.encode('utf-16')
+    return (sample * 2).encode('latin-1', 'ignore') + bytes([0x81, 0x8d])
 
 
 NAME_FAMILIES = [
